@@ -382,6 +382,19 @@ Grid::simplify(Grid_Generator_System& ggs, Dimension_Kinds& dim_kinds) {
     }
   }
 
+  // reduce_parameter_with_line() multiplies the points and parameters
+  // of the system, but not its lines, so that a row already factored
+  // with respect to a line pivot may have lost the strong minimal form:
+  // factor all the pivots out of the preceding rows once more.
+  pivot_index = 0;
+  for (dimension_type dim = 0; dim < num_columns; ++dim) {
+    if (dim_kinds[dim] != GEN_VIRTUAL) {
+      reduce_reduced<Grid_Generator_System>
+        (ggs.sys.rows, dim, pivot_index, dim, num_columns - 1, dim_kinds);
+      ++pivot_index;
+    }
+  }
+
   ggs.unset_pending_rows();
   PPL_ASSERT(ggs.sys.OK());
 }
